@@ -887,13 +887,16 @@ func (w *streamWriter) Close() error {
 	}
 
 	w.parent.inStream = false
-	for _, pair := range w.parent.afterStream {
+	// Detach the list first: a deferred stream object opens (and closes) a
+	// stream of its own while the list is being flushed.
+	deferred := w.parent.afterStream
+	w.parent.afterStream = nil
+	for _, pair := range deferred {
 		err = w.parent.Put(pair.ref, pair.obj)
 		if err != nil {
 			return err
 		}
 	}
-	w.parent.afterStream = w.parent.afterStream[:0]
 
 	return nil
 }
